@@ -127,6 +127,8 @@ type deferRec struct {
 }
 
 type FnVC struct {
+	refining   bool      // generating an interface-refinement check (see refine.go)
+	skipped    []string  // interface clauses not compared (they speak about observation ghosts)
 	insliceUse int       // 0 unknown, 1 yes, -1 no (see usesInslice)
 	frameLoop  *loopInfo // set while the frame of a loop with its own modifies clause is generated
 	w          *World
